@@ -492,7 +492,7 @@ func setInitAllow(ld *loaded, rc RunCfg) {
 			"github.com/projecteru2/core/resource/cobalt", "github.com/projecteru2/core/resource/plugins",
 			"github.com/projecteru2/core/resource/plugins/cpumem", "github.com/projecteru2/core/resource/plugins/cpumem/schedule",
 			"github.com/projecteru2/core/engine/types", "github.com/projecteru2/core/store",
-			"github.com/projecteru2/core/resource", "context", "io":
+			"github.com/projecteru2/core/resource", "context", "io", "strings", "bytes":
 			return true
 		}
 		return false
